@@ -210,8 +210,9 @@ def run_case(case):
         want_head = [qname] + fi[1:9]
         core.check(fo[:9] == want_head, "columns 1-9 changed: %s -> %s", want_head, fo[:9])
         core.check(fo[11] == fi[11], "mapping quality changed: %s -> %s", fi[11], fo[11])
-        ti = [t for t in fi[12:] if not t.startswith("cg:Z:")]
-        to = [t for t in fo[12:] if not t.startswith("cg:Z:")]
+        had_cg = any(t.startswith("cg:Z:") for t in fi[12:])
+        ti = models.masked_fields(fi[12:], drop=())
+        to = models.masked_fields(fo[12:], keep_cg=had_cg, drop=())
         core.check(ti == to, "optional fields changed: %s -> %s", ti, to)
         cg_in = [t[5:] for t in fi[12:] if t.startswith("cg:Z:")]
         cg_out = [t[5:] for t in fo[12:] if t.startswith("cg:Z:")]
